@@ -86,20 +86,26 @@ def debug (d : T) (s : Slice) : Option (List Nat) :=
 
 def kmer32 : Cfg := ⟨64, 32, false⟩
 
+/-- one whole 32-base block of `hamming_dist`: `get_kmer::<Kmer32>` on both views, `count_diff_2_bit_packed` -/
+def hamBlockStep (d1 : T) (s1 : Slice) (d2 : T) (s2 : Slice) (acc : Option Nat) (blk : Nat) : Option Nat :=
+  match acc, getKmer kmer32 d1 s1 (blk * 32), getKmer kmer32 d2 s2 (blk * 32) with
+  | some n, some b1, some b2 => some (n + countDiff2Bit b1 b2)
+  | _, _, _ => none
+
+/-- one trailing base of `hamming_dist` -/
+def hamTailStep (d1 : T) (s1 : Slice) (d2 : T) (s2 : Slice) (acc : Option Nat) (pos : Nat) : Option Nat :=
+  match acc, get d1 s1 pos, get d2 s2 pos with
+  | some n, some a, some b => some (if a != b then n + 1 else n)
+  | _, _, _ => none
+
 /-- `hamming_dist`, as repaired (D1): whole 32-base blocks through `get_kmer::<Kmer32>` and
     `count_diff_2_bit_packed`, the tail base by base -/
 def hammingDist (d1 : T) (s1 : Slice) (d2 : T) (s2 : Slice) : Option Nat :=
   if s1.length ≠ s2.length then none
   else
     let whole := s1.length >>> 5
-    let blocks := (List.range whole).foldl (fun acc blk =>
-      match acc, getKmer kmer32 d1 s1 (blk * 32), getKmer kmer32 d2 s2 (blk * 32) with
-      | some n, some b1, some b2 => some (n + countDiff2Bit b1 b2)
-      | _, _, _ => none) (some 0)
-    (List.range' (whole <<< 5) (s1.length - (whole <<< 5))).foldl (fun acc pos =>
-      match acc, get d1 s1 pos, get d2 s2 pos with
-      | some n, some a, some b => some (if a != b then n + 1 else n)
-      | _, _, _ => none) blocks
+    let blocks := (List.range whole).foldl (hamBlockStep d1 s1 d2 s2) (some 0)
+    (List.range' (whole <<< 5) (s1.length - (whole <<< 5))).foldl (hamTailStep d1 s1 d2 s2) blocks
 
 end Slice
 end DnaStr
